@@ -14,6 +14,16 @@ func e1Plan(quick, thorough int) func(string) []Plan {
 	}
 }
 
+func withProbes(prop string, f func(string) []Plan) func(string) []Plan {
+	return func(tier string) []Plan {
+		pl := f(tier)
+		if n := len(probesByProp[prop]); n > 0 {
+			pl = append(pl, Plan{Cases: n, Workers: 1, MaxProcs: 1, Timeout: 5 * time.Minute})
+		}
+		return pl
+	}
+}
+
 func steps(tier string, quick, thorough int) int {
 	if tier == "thorough" {
 		return thorough
@@ -100,23 +110,23 @@ type e1Prop struct {
 
 func init() {
 	props := []e1Prop{
-		{"C01", cfgC01, 64, 640, "one case = one seeded history (capacity, schema of all column kinds, optional dense-then-sparse layout over up to 3 blocks, ~110/400 transactions) executed in lock-step with the reference model; after every step every cell of every live row is read through Row and Txn typed readers and Row.Any and compared bit/byte-wise with the model; non-trivial = at least 3 committed transactions; distinct = distinct (final state hash, committed count, op count)",
+		{"C01", cfgC01, 3200, 48000, "one case = one seeded history (capacity, schema of all column kinds, optional dense-then-sparse layout over up to 3 blocks, ~110/400 transactions) executed in lock-step with the reference model; after every step every cell of every live row is read through Row and Txn typed readers and Row.Any and compared bit/byte-wise with the model; non-trivial = at least 3 committed transactions; distinct = distinct (final state hash, committed count, op count)",
 			map[string]int64{"txn_committed": 500, "dumps": 500}},
-		{"C02", cfgC02, 64, 640, "one case = one seeded history in which ~40% of the transactions end in an error (body error or failing row callback, after successful inserts/updates/deletes/key ops); after every rolled-back transaction the full dump (rows, values, indexes, keys, counts, sorted order) must equal the dump before it, nothing may reach the logger, and a twin collection that only ever ran the committed transactions must hand out the same insert offsets; inside transactions every write is followed by a read through the same transaction; every third transaction is observed from a second goroutine after each buffered operation (full dump, sometimes snapshot+restore); non-trivial = at least 3 committed transactions",
+		{"C02", cfgC02, 2400, 32000, "one case = one seeded history in which ~40% of the transactions end in an error (body error or failing row callback, after successful inserts/updates/deletes/key ops); after every rolled-back transaction the full dump (rows, values, indexes, keys, counts, sorted order) must equal the dump before it, nothing may reach the logger, and a twin collection that only ever ran the committed transactions must hand out the same insert offsets; inside transactions every write is followed by a read through the same transaction; every third transaction is observed from a second goroutine after each buffered operation (full dump, sometimes snapshot+restore); non-trivial = at least 3 committed transactions",
 			map[string]int64{"txn_rolled_back": 100, "inflight_observations": 100}},
-		{"C03", cfgC03, 64, 640, "one case = one seeded history with up to 6 bitmap indexes (numeric thresholds per accessor, string equality/prefix, bool, record byte tests) created before or after the data and dropped at random; after every step With(index) and Row.Bool(index) are compared with the predicate evaluated over the values read through the typed readers - on the primary, on a stream replica and on restored collections; non-trivial = at least 3 committed transactions",
+		{"C03", cfgC03, 2400, 32000, "one case = one seeded history with up to 6 bitmap indexes (numeric thresholds per accessor, string equality/prefix, bool, record byte tests) created before or after the data and dropped at random; after every step With(index) and Row.Bool(index) are compared with the predicate evaluated over the values read through the typed readers - on the primary, on a stream replica and on restored collections; non-trivial = at least 3 committed transactions",
 			map[string]int64{"index_comparisons": 500, "replica_comparisons": 100}},
-		{"C04", cfgC04, 64, 640, "one case = one seeded history interleaved with random filter chains (length 1-5 over With/Without/Union/WithUnion/WithValue/WithInt/WithUint/WithFloat/WithString on indexes, value columns, bool columns and missing names); Count, the Range sequence and Sum/Avg/Min/Max over a random numeric column are compared with set algebra over the dumped rows and values (float values are dyadic rationals so every summation order is exact); non-trivial = at least 3 committed transactions",
+		{"C04", cfgC04, 3200, 48000, "one case = one seeded history interleaved with random filter chains (length 1-5 over With/Without/Union/WithUnion/WithValue/WithInt/WithUint/WithFloat/WithString on indexes, value columns, bool columns and missing names); Count, the Range sequence and Sum/Avg/Min/Max over a random numeric column are compared with set algebra over the dumped rows and values (float values are dyadic rationals so every summation order is exact); non-trivial = at least 3 committed transactions",
 			map[string]int64{"filter_chains": 500, "aggregates": 300}},
-		{"C07", cfgC07, 64, 512, "one case = one seeded history with snapshot->restore cycles into fresh collections of the same schema (same or different capacity); dump(restored) must equal dump(original) (rows, offsets, values of all kinds, indexes, sorted order, key lookups, counts) and the history then continues on the restored collection under the value/live/key oracles; non-trivial = at least 3 committed transactions",
+		{"C07", cfgC07, 2400, 32000, "one case = one seeded history with snapshot->restore cycles into fresh collections of the same schema (same or different capacity); dump(restored) must equal dump(original) (rows, offsets, values of all kinds, indexes, sorted order, key lookups, counts) and the history then continues on the restored collection under the value/live/key oracles; non-trivial = at least 3 committed transactions",
 			map[string]int64{"restores": 60, "restored_rows": 1000}},
-		{"C11", cfgC11, 64, 640, "one case = one seeded insert/delete-heavy history over fragmented fill patterns (dense fill then sparse survivors around word and block boundaries); every offset returned by an insert is checked against the model's live set and the transaction's own reservations, after every step Range/Count/Txn.Count must equal the live set and every cell of a new row must be what its insert stored (anything else is stale data); non-trivial = at least 3 committed transactions",
+		{"C11", cfgC11, 3200, 48000, "one case = one seeded insert/delete-heavy history over fragmented fill patterns (dense fill then sparse survivors around word and block boundaries); every offset returned by an insert is checked against the model's live set and the transaction's own reservations, after every step Range/Count/Txn.Count must equal the live set and every cell of a new row must be what its insert stored (anything else is stale data); non-trivial = at least 3 committed transactions",
 			map[string]int64{"txn_committed": 500}},
-		{"C12", cfgC12, 64, 512, "one case = one seeded history of InsertKey/UpsertKey/QueryKey/DeleteKey/SetKey over a 10-key alphabet; every return value is compared with the model's key table at issue time and after every step every key of the alphabet is looked up and rows are grouped by key; non-trivial = at least 3 committed transactions",
+		{"C12", cfgC12, 3200, 48000, "one case = one seeded history of InsertKey/UpsertKey/QueryKey/DeleteKey/SetKey over a 10-key alphabet; every return value is compared with the model's key table at issue time and after every step every key of the alphabet is looked up and rows are grouped by key; non-trivial = at least 3 committed transactions",
 			map[string]int64{"key_lookups": 2000}},
-		{"C16", cfgC16, 64, 640, "one case = one seeded history over a 6-string alphabet with up to 3 sorted indexes created before or after the data; after every step the Ascend sequence (plain and under a random filter chain) must be a permutation of the selected rows holding a value, in non-decreasing order of the values read at the callbacks; non-trivial = at least 3 committed transactions",
+		{"C16", cfgC16, 3200, 48000, "one case = one seeded history over a 6-string alphabet with up to 3 sorted indexes created before or after the data; after every step the Ascend sequence (plain and under a random filter chain) must be a permutation of the selected rows holding a value, in non-decreasing order of the values read at the callbacks; non-trivial = at least 3 committed transactions",
 			map[string]int64{"ascend_rows": 2000, "ascend_equal_neighbours": 100}},
-		{"C19", cfgC19, 64, 640, "one case = one seeded history with up to 3 triggers created/dropped mid-history; per transaction the callback log (offset, delete?, value) is compared per row with the model's committed stores (after merge) and row deletions; nothing may be reported for rolled-back transactions or unregistered triggers; non-trivial = at least 3 committed transactions",
+		{"C19", cfgC19, 3200, 48000, "one case = one seeded history with up to 3 triggers created/dropped mid-history; per transaction the callback log (offset, delete?, value) is compared per row with the model's committed stores (after merge) and row deletions; nothing may be reported for rolled-back transactions or unregistered triggers; non-trivial = at least 3 committed transactions",
 			map[string]int64{"trigger_callbacks": 1000}},
 	}
 	for _, p := range props {
@@ -125,8 +135,14 @@ func init() {
 			ID: p.id, Level: "exploration", Rule: p.rule,
 			Assume: []string{"single goroutine (concurrency is decided by the E2/E3 monitors)", "generator respects the model boundaries of DESIGN.md 3.3",
 				"the reference model (harness/cmd/vcheck/model.go) encodes the property statement correctly"},
-			Plan:      e1Plan(p.quick, p.thorough),
-			Run:       func(w *W, phase, idx int) { runHistory(w, idx, p.cfg(w.Tier)) },
+			Plan: withProbes(p.id, e1Plan(p.quick, p.thorough)),
+			Run: func(w *W, phase, idx int) {
+				if phase == 1 {
+					runProbe(w, idx, p.id)
+					return
+				}
+				runHistory(w, idx, p.cfg(w.Tier))
+			},
 			MinEvents: p.min,
 		})
 	}
